@@ -398,7 +398,7 @@ class CodeGenEnvironment(Environment):
         super().__init__(
             loader=loader,  # nosec
             extensions=extensions,
-            autoescape=select_autoescape(
+            autoescape=(lctx.get_target_language().name == "html") or select_autoescape(
                 enabled_extensions=("htm", "html", "xml", "json"), default_for_string=False, default=False
             ),
             undefined=StrictUndefined,
